@@ -113,58 +113,51 @@ Theorem resize1_Q_is_restriction_of_R :
 Proof. exact resize1_transfer. Qed.
 Print Assumptions resize1_Q_is_restriction_of_R.
 
-(* ---- N-d (flat C-order arrays).  [sep_loop m d c cast outer ishape oshape offs]
-   applies the 1-d resize along axis 0, 1, ... ([Lib.Axis.along]); [sep_rev_loop]
-   applies the 1-d maps of the way back in the opposite axis order.  Both are
-   compared with resize_array on every N-d correspondence case (where the in-place
-   model [resizeN] with the working-slice bookkeeping is compared too); that the axis
-   order is immaterial is validated there, not proved.
+(* ---- N-d (flat C-order arrays).  [sep_loop m d c cast outer src dst offs] applies the
+   1-d resize along axis 0, then 1, ... ([Lib.Axis.along]) -- the code's own axis order,
+   in both directions.  It is compared with resize_array on every N-d correspondence
+   case, together with the in-place model [resizeN] (working-slice bookkeeping).
    [config_ok m ishape oshape offs]: every axis has an admissible offset and legal
    padding -- any number of axes, growing in some while shrinking in others. ---- *)
 
-(* T1 (N-d): the separable adjoint is the transpose of the separable forward map. *)
+(* T1 (N-d): forward and adjoint directions of the separable model are transposes, with
+   the code's axis order (axis 0 first) in BOTH directions, any number of resized axes. *)
 Theorem resize_adjoint_nd :
   forall (m : pmode) (outer : nat) (ishape oshape : list nat) (offs : list Z) (x y : list R),
   config_ok m ishape oshape offs = true ->
   length x = (outer * prodn ishape)%nat -> length y = (outer * prodn oshape)%nat ->
   dot (sep_loop m Forward 0 true outer ishape oshape offs x) y
-  = dot x (sep_rev_loop m Adjoint 0 true outer ishape oshape offs y).
-Proof. exact sep_adjoint. Qed.
+  = dot x (sep_loop m Adjoint 0 true outer oshape ishape offs y).
+Proof. exact sep_adjoint_code_order. Qed.
 Print Assumptions resize_adjoint_nd.
 
-(* T1 (N-d): extending in every axis (mode m, constant c) and then cropping with the
-   same offsets (any mode) is the identity. *)
+(* T1 (N-d): extending in every axis (mode m) and then cropping with the same offsets
+   (any mode m') is the identity; both in the code's axis order. *)
 Theorem crop_after_extend_nd :
-  forall (m m' : pmode) (c c' : R) (cast' : bool) (outer : nat) (ishape oshape : list nat)
-         (offs : list Z) (x : list R),
-  config_ok m ishape oshape offs = true -> all_grow ishape oshape = true ->
-  length x = (outer * prodn ishape)%nat ->
-  sep_rev_loop m' Forward c' cast' outer ishape oshape offs
-    (sep_loop m Forward c true outer ishape oshape offs x) = x.
-Proof. exact sep_crop_extend. Qed.
-Print Assumptions crop_after_extend_nd.
-
-(* T1 (N-d, restricted axes): when at most one axis is resized (any position, any
-   number of untouched axes around it) the axis order is immaterial, so both theorems
-   hold for the code's own order (axis 0 first) in both directions. *)
-Theorem resize_adjoint_nd_single_axis :
-  forall (m : pmode) (outer : nat) (ishape oshape : list nat) (offs : list Z) (x y : list R),
-  config_ok m ishape oshape offs = true -> at_most_one ishape oshape offs = true ->
-  length x = (outer * prodn ishape)%nat -> length y = (outer * prodn oshape)%nat ->
-  dot (sep_loop m Forward 0 true outer ishape oshape offs x) y
-  = dot x (sep_loop m Adjoint 0 true outer oshape ishape offs y).
-Proof. exact sep_adjoint_single_axis. Qed.
-Print Assumptions resize_adjoint_nd_single_axis.
-
-Theorem crop_after_extend_nd_single_axis :
   forall (m m' : pmode) (outer : nat) (ishape oshape : list nat) (offs : list Z) (x : list R),
   config_ok m ishape oshape offs = true -> all_grow ishape oshape = true ->
-  at_most_one ishape oshape offs = true ->
   length x = (outer * prodn ishape)%nat ->
   sep_loop m' Forward 0 true outer oshape ishape offs
     (sep_loop m Forward 0 true outer ishape oshape offs x) = x.
-Proof. exact sep_crop_extend_single_axis. Qed.
-Print Assumptions crop_after_extend_nd_single_axis.
+Proof. exact sep_crop_extend_code_order. Qed.
+Print Assumptions crop_after_extend_nd.
+
+(* T1 (N-d): the axis order is immaterial.  Whenever every 1-d line map is linear
+   ([lines_lin]: true for every admissible configuration, [lines_lin_fwd] /
+   [lines_lin_adj]), applying the maps last axis first ([sep_rev_loop]) gives the same
+   array as applying them in the code's order.  (Proof: every linear map on lists is a
+   matrix; acting along one axis commutes with a linear map applied to the inner blocks.) *)
+Theorem axis_order_immaterial :
+  forall (m : pmode) (d : direction) (ishape oshape : list nat) (offs : list Z) (outer : nat) (y : list R),
+  lines_lin m d oshape ishape offs -> length y = (outer * prodn oshape)%nat ->
+  sep_rev_loop m d 0 true outer ishape oshape offs y = sep_loop m d 0 true outer oshape ishape offs y.
+Proof. exact sep_rev_eq_sep. Qed.
+Print Assumptions axis_order_immaterial.
+Theorem admissible_configurations_are_linear :
+  forall (m : pmode) (ishape oshape : list nat) (offs : list Z),
+  config_ok m ishape oshape offs = true ->
+  lines_lin m Forward ishape oshape offs /\ lines_lin m Adjoint oshape ishape offs.
+Proof. intros m i o f H; split; [exact (lines_lin_fwd m i o f H) | exact (lines_lin_adj m i o f H)]. Qed.
 
 (* T1: resize_array always returns an array of the requested length (any mode,
    direction, offset -- legal or not -- whenever it does not raise). *)
@@ -260,6 +253,3 @@ Example config_ok_example :
   config_ok PSymmetric [3; 4; 2]%nat [5; 2; 2]%nat [1; 1; 0]%Z = true
   /\ config_ok POrder1 [2; 3]%nat [6; 3]%nat [3; 0]%Z && all_grow [2; 3]%nat [6; 3]%nat = true.
 Proof. split; vm_compute; reflexivity. Qed.
-Example at_most_one_example :
-  at_most_one [4; 3; 5]%nat [4; 7; 5]%nat [0; 2; 0]%Z && config_ok PPeriodic [4; 3; 5]%nat [4; 7; 5]%nat [0; 2; 0]%Z = true.
-Proof. vm_compute; reflexivity. Qed.
